@@ -14,7 +14,7 @@ EXTENDS PlushSem, Json
 
 CONSTANTS N, EmitCases
 
-Classes == {"a", "LT", "GT", "AMP", "APOS", "QUOT", "EQ", "BSL", "NL", "CR", "U2028", "MB", "COMB", "BAD", "SP"}
+Classes == {"a", "LT", "GT", "AMP", "APOS", "QUOT", "EQ", "BSL", "NL", "CR", "U2028", "MB", "COMB", "BAD", "SP", "E4"}       \* E4: a character of four bytes (outside the basic plane)
 
 \* jsEscape per character class (template.JSEscapeString): what each class becomes
 JsEsc(c) == CASE c = "LT" -> <<"BSL","u","0","0","3","C">> [] c = "GT" -> <<"BSL","u","0","0","3","E">>
@@ -28,7 +28,7 @@ JsEscape(s) == Flat([i \in 1..Len(s) |-> JsEsc(s[i])])
 VARIABLES fam, s, v
 vars == <<fam, s, v>>
 
-Atoms == { Nil, B(TRUE), I(0), I(-3), F(3, 1), S(<<>>), S(<<"a", "LT", "b", "GT", "AMP">>), S(<<"QUOT", "BSL", "NL">>), S(<<"MB", "U2028", "APOS">>) }
+Atoms == { Nil, B(TRUE), I(0), I(-3), F(3, 1), S(<<>>), S(<<"a", "LT", "b", "GT", "AMP">>), S(<<"QUOT", "BSL", "NL">>), S(<<"MB", "U2028", "APOS">>), S(<<"E4", "0", "CJK">>) }
 Arrays(V) == { A(<<>>) } \cup { A(<<x>>) : x \in V }
 Arrays2(V) == Arrays(V) \cup { A(<<x, y>>) : x \in V, y \in V }
 Objects(V) == { M([k |-> x]) : x \in V } \cup { M(EmptyScope) }
